@@ -711,9 +711,46 @@ func c12Locks(c *Ctx, p *Prog, rule string, reset, sample *ssa.Function, reach m
 			}
 		})
 		bad := ""
-		if nl != 1 || nd != 1 || nu != 0 {
+		explicit := nl == 1 && nd == 0 && nu >= 1
+		if explicit {
+			// Lock ... Unlock written out: every return is preceded by an Unlock, and no table access
+			// or helper call comes after one
+			unl := map[ssa.Instruction]bool{}
+			allInstrs(fn, func(in ssa.Instruction) {
+				if call, ok := in.(ssa.CallInstruction); ok && len(call.Common().Args) > 0 && isMutexOf(call.Common().Args[0], tWD) && p.CalleeID(call.Common()) == "(*sync.Mutex).Unlock" {
+					unl[in] = true
+				}
+			})
+			for _, r := range returnsOf(fn) {
+				if canReachWithout(lock, r, unl) {
+					bad = "the return at " + p.InstrPos(r) + " is reachable with the mutex still held"
+				}
+			}
+			allInstrs(fn, func(in ssa.Instruction) {
+				touches := false
+				if fa, ok := in.(*ssa.FieldAddr); ok {
+					if k, ok := fieldKeyOf(fa.X.Type(), fa.Field); ok && k.Type == tWD && k.Field != "Mutex" {
+						touches = true
+					}
+				}
+				if call, ok := in.(ssa.CallInstruction); ok {
+					if sc := call.Common().StaticCallee(); sc != nil && reach[sc] && sc != fn && sc.Signature.Recv() != nil {
+						touches = true
+					}
+				}
+				if !touches {
+					return
+				}
+				for u := range unl {
+					if canReachWithout(u, in, nil) {
+						bad = "the tables are touched at " + p.InstrPos(in) + " after the mutex was released"
+					}
+				}
+			})
+		}
+		if !explicit && (nl != 1 || nd != 1 || nu != 0) {
 			bad = fmt.Sprintf("%d Lock, %d deferred and %d direct Unlock", nl, nd, nu)
-		} else {
+		} else if bad == "" {
 			allInstrs(fn, func(in ssa.Instruction) {
 				if fa, ok := in.(*ssa.FieldAddr); ok {
 					if k, ok := fieldKeyOf(fa.X.Type(), fa.Field); ok && k.Type == tWD && k.Field != "Mutex" && !instrDominates(lock, fa) {
